@@ -231,7 +231,7 @@ theorem opSteps_exits (cfg : Config) (block : SignedBlock) (p C : Nat) (hno : On
     exact ⟨by rw [hf]; exact hi.head.fork, hi.head.ctxp, by rw [proposer_frame cfg st st' hd]; exact hi.head.prop,
       by rw [hv]; exact hi.head.plt, by rw [hm]; exact hi.head.mixes⟩
   · intro ctx payload hpl; rw [hno.payload] at hpl; cases hpl
-  · intro ctx payload hpl; rw [hno.payload] at hpl; cases hpl
+  · intro _ ctx payload hpl; rw [hno.payload] at hpl; cases hpl
   · intro ctx _ st _ _ hi
     refine ⟨sim_randao cfg ctx st block p hi.head.prop hi.head.ctxp hi.head.plt hi.head.mixes hpos, fun st' h => ⟨?_, fun hf => by cases hf⟩⟩
     obtain ⟨hv, hs, hf, x, hm⟩ := processRandao_frame cfg ctx st st' block h
